@@ -186,6 +186,7 @@ def run(ctx):
                                   for x in o[1:]] for o in ops], 'names': names}
         outs = run_real(ops, names, ctx, case)
         nested = any(o[0] == 'n' for o in ops)
+        orig_ops = ops
         ops = flatten(ops)
         ref = reference(ops, names)
         impl_strs = []
@@ -223,7 +224,10 @@ def run(ctx):
             impl_strs.append(('[', parts, ']'))
         lines.append('trace ops=' + '|'.join(
             (f'c:{names[o[1]]}:{rat(o[2])}:{int(o[3])}' if o[0] == 'c' else
-             ('x' if o[0] == 'x' else f'q:{int(o[1])}:{"-" if o[2] is None else o[2]}')) for o in ops))
+             ('x' if o[0] == 'x' else
+              # re-entrant chains go to the model's clock/stack machine as they are (KV.Trace.nrun)
+              (f'n:{">".join(names[i] for i in o[1])}:{",".join(rat(x) for x in o[2])}' if o[0] == 'n' else
+               f'q:{int(o[1])}:{"-" if o[2] is None else o[2]}'))) for o in orig_ops))
         pend.append((case, impl_strs))
         ncalls = sum(1 for o in ops if o[0] == 'c')
         nq = sum(1 for o in ops if o[0] == 'q' and o[2] is not None)
